@@ -24,7 +24,52 @@ struct Built<A: VArena> {
     live: Vec<(u32, u32)>,
 }
 
+/// The configuration a read-only case really runs on: a file-backed arena (always unified layout).
+fn ro_cfg(cfg: &Cfg) -> Cfg {
+    let mut c = cfg.clone();
+    c.backend = Backend::File;
+    c.unify = true;
+    c.file_offset = 0;
+    c.cap = c.prefix() + 1024;
+    c.path = Some(format!("{}/iso-ro.arena", tmp_dir()));
+    c
+}
+
+/// A file-backed arena with a multi-segment free list, live neighbours and fresh space left, closed and
+/// opened again read-only (map or map_copy_read_only).
+fn build_read_only<A: VArena>(cfg: &Cfg, salt: u64) -> Option<Built<A>> {
+    let mut rng = Rng::new(salt ^ 0x70);
+    let mut live = vec![];
+    {
+        let a: A = create::<A>(cfg).ok()?;
+        let mut hs = vec![];
+        let sizes = [24u32, 9, 40, 64, 17, 100, 33, 48, 16];
+        for i in 0..8 {
+            let s = sizes[i % sizes.len()] + rng.below(8) as u32;
+            if let Ok(mut h) = a.alloc_bytes(s) {
+                unsafe { std::ptr::write_bytes(h.as_mut_ptr(), 0xAB, s as usize) };
+                hs.push(h);
+            }
+        }
+        for (k, mut h) in hs.into_iter().enumerate() {
+            if k % 2 == 0 && k < 6 {
+                drop(h);
+            } else {
+                unsafe { rarena_allocator::Buffer::detach(&mut h) };
+                live.push((rarena_allocator::Buffer::offset(&h) as u32, rarena_allocator::Buffer::capacity(&h) as u32));
+            }
+        }
+        let _ = a.flush();
+    }
+    let mode = if salt % 2 == 0 { OpenMode::Map } else { OpenMode::MapCopyRo };
+    let arena: Box<A> = Box::new(reopen::<A>(cfg, mode, None, false).ok()?);
+    Some(Built { arena, live })
+}
+
 fn build<A: VArena>(cfg: &Cfg, prelude: Prelude, salt: u64) -> Option<Built<A>> {
+    if prelude == Prelude::ReadOnly {
+        return build_read_only::<A>(cfg, salt);
+    }
     let mut rng = Rng::new(salt);
     let arena: Box<A> = Box::new(create::<A>(cfg).ok()?);
     let a: &'static A = unsafe { &*(&*arena as *const A) };
@@ -197,6 +242,9 @@ fn run_call<A: VArena>(out: &mut Out, c: &Case, call: Call, at: &str, reuse: &mu
         Ok(Err(e)) => {
             out.inc("c04_errors");
             let kind_ok = matches!(e, Error::InsufficientSpace { .. }) || (ro && matches!(e, Error::ReadOnly));
+            if ro {
+                out.inc("c04_read_only_refusals");
+            }
             if !kind_ok {
                 out.viol("C04", &format!("{}:wrong-error", callname), detail(format!("error {:?}", e)));
             }
@@ -209,8 +257,12 @@ fn run_call<A: VArena>(out: &mut Out, c: &Case, call: Call, at: &str, reuse: &mu
         }
         Ok(Ok((off, cp, boff, bcap, zero, al))) => {
             out.inc("c04_successes");
-            if ro {
+            if ro && cp > 0 {
+                // (a zero-sized request that "succeeds" on a read-only arena occupies nothing; the statement leaves it open)
                 out.viol("C04", &format!("{}:succeeded-on-read-only", callname), detail("allocation succeeded on a read-only arena".into()));
+            }
+            if ro {
+                out.inc("c04_read_only_zero_size_ok");
             }
             let (need_exact, need_min, align) = match call {
                 Call::Bytes(n, _) => (Some(n as u64), n as u64, 1u32),
@@ -247,7 +299,7 @@ fn run_call<A: VArena>(out: &mut Out, c: &Case, call: Call, at: &str, reuse: &mu
             }
         }
     }
-    if c.cfg.cap > (1 << 30) && res_ok {
+    if (c.cfg.cap > (1 << 30) || c.prelude == Prelude::ReadOnly) && res_ok {
         // huge arenas are expensive to build: keep them while the state is as before
         let post = (a.allocated(), a.discarded(), a.remaining(), a.snap());
         if post == pre {
@@ -288,7 +340,9 @@ pub fn c04_main(args: &Args) -> i32 {
         for &prelude in preludes.iter() {
             let mut cfg = cfg0.clone();
             if prelude == Prelude::ReadOnly {
-                continue; // read-only arenas are exercised by C09 (file based) and the E-SEQ read-only sessions
+                // file-backed, closed, reopened with map / map_copy_read_only: every request must be answered
+                // with ReadOnly (or InsufficientSpace) and leave the state alone — never by a store into the mapping
+                cfg = ro_cfg(cfg0);
             }
             if huge && prelude == Prelude::Half {
                 cfg.cap = cfg0.cap;
